@@ -517,3 +517,29 @@ func firstDiffKind(want, got string) string {
 	}
 	return "none"
 }
+
+func containsAny(s string, sub string) bool { return strings.Contains(s, sub) }
+
+// firstDiffField returns the name of the first differing key=value token of the first
+// differing line of two dumps.
+func firstDiffField(want, got string) string {
+	w := strings.Split(want, "\n")
+	g := strings.Split(got, "\n")
+	for i := 0; i < len(w) && i < len(g); i++ {
+		if w[i] == g[i] {
+			continue
+		}
+		a, b := strings.Fields(w[i]), strings.Fields(g[i])
+		for j := 0; j < len(a) && j < len(b); j++ {
+			if a[j] != b[j] {
+				t := a[j]
+				if k := strings.Index(t, "="); k > 0 {
+					return t[:k]
+				}
+				return t
+			}
+		}
+		return "line"
+	}
+	return "count"
+}
